@@ -35,15 +35,15 @@ def ref_totp(secret_b32, t, step_offset=0):
     return "%06d" % ((struct.unpack(">I", d[o:o + 4])[0] & 0x7FFFFFFF) % 1000000)
 
 
-class FakeSession:
-    class log:
-        @staticmethod
-        def error(*a, **k):
-            pass
+class _AnyLog:
+    """a logger that takes any level (which level the library logs at is nobody's business)"""
 
-        @staticmethod
-        def info(*a, **k):
-            pass
+    def __getattr__(self, name):
+        return lambda *a, **k: None
+
+
+class FakeSession:
+    log = _AnyLog()
 
     def __init__(self, channel_id=None):
         class TD:
